@@ -10,6 +10,7 @@ package mempool
 
 import (
 	"fmt"
+	"os"
 	"math/rand"
 	"sort"
 	"strings"
@@ -61,6 +62,9 @@ type Universe struct {
 	MaxBlockTxs   int
 	MaxReorgTxs   int
 	Standalone    bool
+	// DisconnectEvicts selects the repaired NTBlockDisconnected protocol in the
+	// specification (VERIF_FIXED_DISCONNECT=1: used to validate the proposed patch).
+	DisconnectEvicts bool
 	// Scripted, when non-empty, is the only schedule explored: {kind, tx} with
 	// kind 1 ProcessTx(tx, true), 2 CheckAccept(tx), 3 RemoveTx(tx, true)
 	// (boundary scenarios with a hundred transactions).
@@ -195,8 +199,8 @@ func (u *Universe) Module(modName, base string, c *Concrete, extraDefs, cfgTail 
 	cf.WriteString("CONSTANTS\n")
 	fmt.Fprintf(&cf, " N = %d\n TxIns <- U_TxIns\n TxNOut <- U_TxNOut\n TxFee <- U_TxFee\n TxVSize <- U_TxVSize\n TxSize <- U_TxSize\n", len(u.Txs))
 	cf.WriteString(" TxRbf <- U_TxRbf\n TxCls <- U_TxCls\n TxWit <- U_TxWit\n SlotParent <- U_SlotParent\n")
-	fmt.Fprintf(&cf, " NFund = %d\n Maturity = %d\n RejectRepl = %s\n MaxOrphans = %d\n MaxOrphanSize = %d\n MinRelayFee = %d\n FreeLimit = %d\n MaxEvict = %d\n MaxBlockTxs = %d\n MaxReorgTxs = %d\n Standalone = %s\n",
-		u.NFund, u.Maturity, tlaBool(u.RejectRepl), u.MaxOrphans, u.MaxOrphanSize, u.MinRelayFee, u.FreeLimit, u.MaxEvict, u.MaxBlockTxs, u.MaxReorgTxs, tlaBool(u.Standalone))
+	fmt.Fprintf(&cf, " NFund = %d\n Maturity = %d\n RejectRepl = %s\n MaxOrphans = %d\n MaxOrphanSize = %d\n MinRelayFee = %d\n FreeLimit = %d\n MaxEvict = %d\n MaxBlockTxs = %d\n MaxReorgTxs = %d\n Standalone = %s\n DisconnectEvicts = %s\n",
+		u.NFund, u.Maturity, tlaBool(u.RejectRepl), u.MaxOrphans, u.MaxOrphanSize, u.MinRelayFee, u.FreeLimit, u.MaxEvict, u.MaxBlockTxs, u.MaxReorgTxs, tlaBool(u.Standalone), tlaBool(u.DisconnectEvicts || os.Getenv("VERIF_FIXED_DISCONNECT") != ""))
 	cf.WriteString(" Script <- U_Script\n")
 	cf.WriteString(cfgTail)
 	return sb.String(), cf.String()
@@ -244,13 +248,14 @@ func BuiltinUniverses() []*Universe {
 		// RBF: t1 signals and has a child t2 (inherits) and a two-parent child
 		// t4; t3 replaces t1 (+descendants) paying just enough, t5 pays one
 		// satoshi too little, t6 has the same fee rate as t1.
-		defaults(Universe{Name: "rbf", NFund: 2, SlotParent: []int{0}, MaxOrphans: 1, MaxBlockTxs: 1, Standalone: true,
+		defaults(Universe{Name: "rbf", NFund: 2, Maturity: 2, SlotParent: []int{0}, MaxOrphans: 1, MaxBlockTxs: 1, Standalone: true,
 			Txs: []TxSpec{
 				{Ins: ins(fund(0)), NOut: 2, Fee: 2000, Rbf: true},
 				{Ins: ins(out(1, 0)), Fee: 1000},
 				{Ins: ins(fund(0)), Fee: 3100},             // = 2000+1000+minfee(100)
 				{Ins: ins(fund(0)), Fee: 3099},             // one short of the absolute fee rule
 				{Ins: ins(fund(0), fund(1)), Fee: 4000, VSize: 200}, // fee rate 20000 = t1's rate, absolute fee sufficient
+				{Ins: ins(baseCB()), Fee: 1000},                     // immature until a block is mined (maturity 2)
 			}}),
 		// Orphans: a chain t1 -> t2 -> t3 with a conflicting spender t4 of t1's
 		// output and an oversized orphan t5.
